@@ -20,7 +20,7 @@ TECHNIQUE = "exhaustive enumeration of facade method x command set x every subse
 RULE = ("38 facade methods x every command set whose table offers the command x every subset of the optional keyword arguments (from "
         "inspect.signature of the command class; each supplied argument takes 2 non-default values) x caller buffers of kind bytearray / bytes / memoryview window x 2-3 well-formed device responses chosen to "
         "match the request and 8 truncated ones (a length field announcing more than was transferred: ~500 bytes at offsets 0-1, 0-3, 4-7, 2-3, FFh at 4, FFFEh and 10000h at 0; all bytes FFh); plus every method x set x 10 exception types raised by the device *after* it took the command (exactly one submission, the same exception object reaches the caller) (VPD page by page code, mode page by page code, PR IN data by service action, disc information by data type, READ CD "
-        "sectors by selection bits); READ/WRITE(10,12,16) through the real SCSIDevice / ISCSIDevice and the stand-in bindings with transfers of {1,2,7Fh,80h,7FFFh,8000h,8001h,40000,FFFFh} blocks of 512 bytes (one submission, whole buffers, iSCSI expected transfer length = buffer length); 7 methods as the first call after a re-plug whose re-open failed once (EACCES/EMFILE/EBUSY) on a real SCSIDevice: one submission to the node now at the path. after every successful call: decode the returned command again, submit it again, repeat the call on the same facade (same CDB, one submission each, equal result, fresh buffers). Non-trivial = at least one optional argument supplied or a non-SPC command set; distinct = distinct (method, "
+        "sectors by selection bits); READ/WRITE(10,12,16) through the real SCSIDevice / ISCSIDevice and the stand-in bindings with transfers of {1,2,7Fh,80h,7FFFh,8000h,8001h,40000,FFFFh} blocks of 512 bytes (one submission, whole buffers, iSCSI expected transfer length = buffer length); 11 methods (reads and writes) as the first call after a re-plug, plain or with the re-open failing once (EACCES/EMFILE/EBUSY), on a real SCSIDevice: one submission to the node now at the path; two facades over two devices (different sets, block sizes 512 / 4096) used alternately A.m, B.m', A.m for every pair of methods and offering sets: own device, own operation code, own block size, same CDB for A before and after. after every successful call: decode the returned command again, submit it again, repeat the call on the same facade (same CDB, one submission each, equal result, fresh buffers). Non-trivial = at least one optional argument supplied or a non-SPC command set; distinct = distinct (method, "
         "set, argument dict, response).")
 ASSUMPTIONS = [
     "the recording device is a plain object with opcodes/execute/close: it notes call count, a copy of the CDB, id() of both buffers and whether cmd.result was already populated, then fills data-in in place",
@@ -293,7 +293,7 @@ def run_transport(case, obs=None):
     return out
 
 
-RECOVERY_METHODS = ["testunitready", "inquiry", "readcapacity10", "readcapacity16", "read10", "reportluns", "modesense6"]
+RECOVERY_METHODS = ["testunitready", "inquiry", "readcapacity10", "readcapacity16", "read10", "reportluns", "modesense6", "write10", "write16", "writesame16", "modeselect6"]
 
 
 def run_recovery(case, obs=None):
@@ -318,11 +318,16 @@ def run_recovery(case, obs=None):
         s.testunitready()
         devmod.open = failing_open
         new = rig.node.plug()
-        armed[0] = True
-        where = "%s after a re-plug whose first re-open failed with errno %d" % (method, fault_errno)
+        armed[0] = bool(fault_errno)
+        where = "%s after a re-plug%s" % (method, " whose first re-open failed with errno %d" % fault_errno if fault_errno else "")
+        if not fault_errno:
+            s.testunitready()          # (the re-open happens here, without a fault)
+            armed[0] = False
+            oc = None
         try:
-            s.testunitready()
-            oc = "returned normally"
+            if fault_errno:
+                s.testunitready()
+                oc = "returned normally"
         except OSError:
             oc = None
         except Exception as e:   # noqa: BLE001
@@ -350,7 +355,57 @@ def run_recovery(case, obs=None):
     return out
 
 
+def run_two(case, obs=None):
+    """two facades over two devices alive at once (different command sets, different block sizes), used alternately:
+    A.m, B.m', A.m - every call reaches its own device once, with its own device's operation code and its own facade's block size;
+    A's two calls send the same CDB"""
+    import pyscsi.pyscsi.scsi_enum_command as E
+    from pyscsi.pyscsi.scsi import SCSI
+    _, m, st_a, m2, st_b = case
+    out = []
+    da, db = RecDev(getattr(E, st_a)), RecDev(getattr(E, st_b))
+    sa, sb = SCSI(da, 512), SCSI(db, 4096)
+    da.opcodes, db.opcodes = getattr(E, st_a), getattr(E, st_b)
+    del da.calls[:], db.calls[:]
+    where = "%s on %s / %s on %s / %s again" % (m, st_a, m2, st_b, m)
+    seq = []
+    for who, meth, bs in ((sa, m, 512), (sb, m2, 4096), (sa, m, 512)):
+        na, nb = len(da.calls), len(db.calls)
+        try:
+            F.call(who, meth, blocksize=bs)
+        except Exception as e:   # noqa: BLE001
+            out.append(("two/raises/%s" % meth, "%s: %s raised %s: %s" % (where, meth, type(e).__name__, e)))
+            return out
+        ga, gb = len(da.calls) - na, len(db.calls) - nb
+        want = (1, 0) if who is sa else (0, 1)
+        if (ga, gb) != want:
+            out.append(("two/wrong_device/%s" % meth, "%s: the call on facade %s reached device A %d times and device B %d times" % (where, "A" if who is sa else "B", ga, gb)))
+            return out
+        rec = (da if who is sa else db).calls[-1]
+        seq.append(rec)
+        st = st_a if who is sa else st_b
+        key = F.FACADE[meth][1]
+        lookup = "%s_OPCODE_%s" % (st.upper(), key) if key in ("9E", "A3") else key
+        if rec["cdb"][0] != T.t10_value(st, lookup):
+            out.append(("two/opcode/%s" % meth, "%s: %s sent opcode %#04x, its device's %s set assigns %#04x" % (where, meth, rec["cdb"][0], st, T.t10_value(st, lookup))))
+        if who.blocksize != bs:
+            out.append(("two/blocksize", "%s: facade block size is %r, configured %d" % (where, who.blocksize, bs)))
+        name = F.FACADE[meth][0]
+        if name in F_BLOCK and meth.startswith(("read1", "write1")):
+            n = S.decode(name, rec["cdb"])["tl"] * bs
+            buf = rec["datain"] if meth.startswith("read") else rec["dataout"]
+            if len(buf) != n:
+                out.append(("two/buffer/%s" % meth, "%s: %s moved %d bytes, its facade's block size gives %d" % (where, meth, len(buf), n)))
+    if seq[0]["cdb"] != seq[2]["cdb"]:
+        out.append(("two/cdb_changed/%s" % m, "%s: the same call on A sends %s after B was used, %s before" % (where, seq[2]["cdb"].hex(), seq[0]["cdb"].hex())))
+    if obs is not None:
+        obs.append(tuple(r["cdb"] for r in seq))
+    return out
+
+
 def run_case(case, obs=None):
+    if case[0] == "two":
+        return run_two(case, obs)
     if case[0] == "fault":
         return run_fault(case, obs)
     if case[0] == "transport":
@@ -527,14 +582,33 @@ def replay(case):
 
 def partitions(tier):
     return ([[m] for m in F.FACADE] + [["transport", tr, m] for tr in ("sgio", "iscsi") for m in ("read10", "read12", "read16", "write10", "write12", "write16")]
-            + [["recovery"]])
+            + [["recovery"]] + [["two", m] for m in F.FACADE])
 
 
 def run_partition(part, tier, seed):
     acc = Acc(seed)
+    if part[0] == "two":
+        m = part[1]
+        for st_a in F.sets_offering(m):
+            for m2 in F.FACADE:
+                for st_b in F.sets_offering(m2):
+                    if st_b == st_a and m2 != m:
+                        continue
+                    case = ["two", m, st_a, m2, st_b]
+                    acc.case(case, nontrivial=True, key=repr(case))
+                    obs = []
+                    try:
+                        v = run_case(case, obs)
+                    except Exception:
+                        import traceback
+                        v = [("harness_error", traceback.format_exc()[-600:])]
+                    for k, w in v:
+                        acc.violation(k, w, case)
+                    acc.outcome((repr(case), tuple(obs), tuple(k for k, _ in v)))
+        return acc
     if part[0] == "recovery":
         for m in RECOVERY_METHODS:
-            for en in (13, 24, 16):          # EACCES, EMFILE, EBUSY
+            for en in (13, 24, 16, 0):          # EACCES, EMFILE, EBUSY, no fault (plain re-plug)
                 case = ["recovery", m, en]
                 acc.case(case, nontrivial=True, key=repr(case))
                 obs = []
